@@ -173,3 +173,139 @@ def validate_against_real(cs, columns, model_rows):
         raise Inconclusive('trace validation: model and real stack disagree\n scenario=%r\n '
                            'model cols=%r rows=%r\n real cols=%r rows=%r'
                            % (cs, columns, a, list(rr.columns), b))
+
+
+# ---- relational variant: the same call under two presentations ---------------------------------
+
+def make_rel(cfg_in):
+    """cfg['relate']: 'njobs' (n_jobs=1 vs every n_jobs in cfg['n_jobs']), 'perm' (rows of both
+    tables permuted by a symbolic permutation), 'index' (index relabelled + extra column order).
+    cfg['compare']: 'multiset' (rows without _id equal as multisets) or 'qualifying' (only pairs the
+    oracle calls qualifying must agree - filters with superfluous candidates)."""
+    cfg = dict(DEFAULTS)
+    cfg.update(cfg_in)
+    props = set(cfg['props']) if cfg['props'] else None
+
+    def h(c):
+        entry = cfg['entry']
+        measure = cfg['measure'] or scenario.JOIN_MEASURE.get(entry)
+        tok_mode = _opt(c, 'tokmode', cfg['tok_return_set'])
+        Lt = scenario.build_table(c, 'L', cfg['nl'], cfg['k'], cfg['kmin'], cfg['missing'], False,
+                                  cfg['nonempty'])
+        Rt = scenario.build_table(c, 'R', cfg['nr'], cfg['k'], cfg['kmin'], cfg['missing'], False,
+                                  cfg['nonempty'])
+        lo, ro = _opt(c, 'outattrs', cfg['out_attrs'])
+        s = dict(entry=entry, filter=cfg['filter'], measure=measure, kind=cfg['kind'],
+                 threshold=_opt(c, 'thr', cfg['thresholds']), comp_op=_opt(c, 'op', cfg['comp_ops']),
+                 allow_empty=_opt(c, 'ae', cfg['allow_empty']),
+                 allow_missing=_opt(c, 'am', cfg['allow_missing']),
+                 out_sim_score=_opt(c, 'oss', cfg['out_sim_score']), n_jobs=1,
+                 l_key='id', r_key='id', l_attr='attr', r_attr='attr',
+                 l_out_attrs=list(lo) if lo is not None else None,
+                 r_out_attrs=list(ro) if ro is not None else None,
+                 l_out_prefix='l_', r_out_prefix='r_', tok_return_set=tok_mode)
+        if entry == 'filter_tables' and cfg['filter'] != 'OverlapFilter':
+            s['out_sim_score'] = False
+            s['comp_op'] = '>='
+        if entry == 'overlap_join' or cfg['filter'] == 'OverlapFilter':
+            s['allow_empty'] = False
+        s['L'], s['R'] = scenario.table_dict(Lt), scenario.table_dict(Rt)
+        s2 = dict(s)
+        rel = cfg['relate']
+        if rel == 'njobs':
+            s2['n_jobs'] = _opt(c, 'nj', cfg['n_jobs'])
+        elif rel == 'perm':
+            import itertools
+            pl = _opt(c, 'permL', list(itertools.permutations(range(cfg['nl']))))
+            pr = _opt(c, 'permR', list(itertools.permutations(range(cfg['nr']))))
+            s2['L'] = dict(s['L'], rows=[s['L']['rows'][i] for i in pl])
+            s2['R'] = dict(s['R'], rows=[s['R']['rows'][i] for i in pr])
+            s2['n_jobs'] = _opt(c, 'nj', cfg['n_jobs'])
+            s['n_jobs'] = s2['n_jobs']
+        elif rel == 'index':
+            s2['L'] = dict(s['L'], index=[7, 7][:cfg['nl']] + list(range(100, 100 + max(0, cfg['nl'] - 2))))
+            s2['R'] = dict(s['R'], index=['b', 'a', 'a'][:cfg['nr']])
+        b = dict(bindings())
+        if cfg['cpu_count']:
+            import types
+            ncpu = c.int_var('ncpu', 1, cfg['cpu_count'])
+            b[('utils.generic_helper', 'multiprocessing')] = types.SimpleNamespace(
+                cpu_count=lambda: ncpu)
+
+        def detail(prop, clause, msg, which):
+            def mk(m):
+                return {'prop': prop, 'clause': clause, 'msg': msg, 'harness': 'h_rel',
+                        'relate': rel, 'compare': cfg['compare'],
+                        'scenario': scenario.concretize_scenario(which[0], m),
+                        'scenario2': scenario.concretize_scenario(which[1], m)}
+            return mk
+
+        outs = []
+        with repo.patched(b):
+            for sc in (s, s2):
+                Lf = pdmodel.FakeFrame(sc['L']['rows'], columns=sc['L']['columns'],
+                                       index=sc['L']['index'])
+                Rf = pdmodel.FakeFrame(sc['R']['rows'], columns=sc['R']['columns'],
+                                       index=sc['R']['index'])
+                tok = symdata.AbsTok(return_set=tok_mode)
+                try:
+                    outs.append(oracle.Result.of(scenario.call_entry(sc, Lf, Rf, tok)))
+                except Violation:
+                    raise
+                except Exception as e:
+                    msg = 'valid call raised %s: %s' % (type(e).__name__, e)
+                    raise Violation(msg, detail('CRASH', 'call-succeeds', msg, (sc, sc)))
+        a, bb = outs
+
+        def rows_wo_id(r):
+            j = r.columns.index('_id') if '_id' in r.columns else None
+            return [tuple(v for i, v in enumerate(row) if i != j) for row in r.rows]
+
+        ra, rb = rows_wo_id(a), rows_wo_id(bb)
+        bad = None
+        if a.columns != bb.columns:
+            bad = 'columns differ: %r vs %r' % (a.columns, bb.columns)
+        elif '_id' in bb.columns and [int(x) for x in bb.col('_id')] != list(range(len(bb.rows))):
+            bad = '_id column is %r' % (bb.col('_id'),)
+        elif cfg['compare'] == 'multiset':
+            if not _same_multiset(ra, rb):
+                bad = 'result rows differ: %r vs %r' % (ra, rb)
+        else:
+            # qualifying pairs must agree: use the join oracle on both
+            w = scenario.SymWorld()
+            for sc, r in ((s, a), (s2, bb)):
+                for (p, clause, msg) in oracle.check_join_output(sc, w, r):
+                    if p in ('C04', 'C01'):
+                        bad = msg
+        if bad:
+            p = (cfg['props'] or ['C10'])[0]
+            raise Violation('%s/%s: %s' % (p, rel, bad), detail(p, rel, bad, (s, s2)))
+        return {'nontrivial': len(ra) > 0, 'tags': ['rows=%d' % len(ra)], 'sample': None}
+
+    return h
+
+
+def _same_multiset(ra, rb):
+    if len(ra) != len(rb):
+        return False
+    rb = list(rb)
+    for r in ra:
+        hit = None
+        for i, q in enumerate(rb):
+            if len(q) == len(r) and all(_veq(x, y) for x, y in zip(r, q)):
+                hit = i
+                break
+        if hit is None:
+            return False
+        rb.pop(hit)
+    return True
+
+
+def _veq(x, y):
+    if x is y:
+        return True
+    if isinstance(x, float) and isinstance(y, float) and x != x and y != y:
+        return True
+    if isinstance(x, symdata.Cell) or isinstance(y, symdata.Cell):
+        return x is y
+    return x == y
